@@ -24,5 +24,31 @@ pub fn validate_block_bookending<V: ast::Visitable>(ast: &V) -> Result<(), Error
     Ok(())
 }
 
+/// Reject absurdly deep block nesting, so that the (recursive) passes that follow cannot exhaust the stack.
+pub fn limit_block_nesting<V: ast::Visitable>(ast: &V, emitter: &impl crate::diagnostic::Emitter) -> Result<(), ErrorReported> {
+    const MAX_DEPTH: u32 = 256;
 
+    struct NestingVisitor { depth: u32, too_deep: Option<crate::pos::Span> }
+    impl Visit for NestingVisitor {
+        fn visit_block(&mut self, block: &ast::Block) {
+            if self.depth >= MAX_DEPTH {
+                self.too_deep.get_or_insert(block.0.first().map(|stmt| stmt.span).unwrap_or(crate::pos::Span::NULL));
+                return;  // (do not descend any further)
+            }
+            self.depth += 1;
+            ast::walk_block(self, block);
+            self.depth -= 1;
+        }
+    }
+
+    let mut visitor = NestingVisitor { depth: 0, too_deep: None };
+    ast.visit_with(&mut visitor);
+    match visitor.too_deep {
+        None => Ok(()),
+        Some(span) => Err(emitter.emit(error!(
+            message("blocks are nested too deeply"),
+            primary(span, "more than {} blocks deep", MAX_DEPTH),
+        ))),
+    }
+}
 
